@@ -447,7 +447,7 @@ class C03(Prop):
         forg = []
         for al in tsub:
             for req in tsub[1:]:
-                for style in (("a", "c", "f") if tier == "quick" else ("a", "b", "c", "f", "k", "d")):
+                for style in (("a", "f") if tier == "quick" else ("a", "b", "c", "f", "k", "d")):
                     for e in entries:
                         forg.append({"lines": [f"cfg {caps_str(al)}", f"reg w 1 {caps_str(req)} none 0 {style}", e],
                                      "note": "exhaustive foreign capability tags x style x entry"})
@@ -531,7 +531,7 @@ class C03(Prop):
                     infl.append({"lines": [f"cfg {caps_str(al)}", f"reg w 1 2 none 0 {style}", f"reg sqrt 2 2 none 0 {style}",
                                            f"arm 1 reg w 3 - none 0 {style}", e, "call w"],
                                  "note": "digest_glucose (legacy wrapper, forced math pathway) with registered tool names"})
-        return [{"name": "container types (set/frozenset/list/tuple) of the ceiling and of the tool's declaration x entry points",
+        spaces = [{"name": "container types (set/frozenset/list/tuple) of the ceiling and of the tool's declaration x entry points",
                  "cases": cont},
                 {"name": "re-registration histories: allowed/used/re-registered outside the ceiling x entry-point pairs",
                  "cases": hist},
@@ -547,6 +547,12 @@ class C03(Prop):
                  "cases": infl},
                 {"name": f"ceilings x declared capability sets (subsets of 3 caps, size <= {size}) x attribute style x entry point",
                  "cases": cases}]
+        if tier != "quick":
+            return spaces
+        # quick tier: one model-driver start costs ~2.5 s, so the spaces are run in three batches
+        groups = [[0, 1, 2, 7], [3, 4, 5], [6]]
+        return [{"name": " + ".join(spaces[i]["name"] for i in g), "cases": [c for i in g for c in spaces[i]["cases"]]}
+                for g in groups]
 
     # --- implementation -----------------------------------------------------------------------------------
     def run_impl(self, case):
